@@ -32,7 +32,7 @@ BUILTIN_CLASSES = {
     '$PolicyValues': ['collections.abc.MutableMapping'],   # what RequestContext.to_policy_values() returns
     '$Opaque': ['object'],                                  # any other object
     '$Response': ['object'], '$Argspec': ['object'], '$File': ['object'], '$OsloPolicyGroup': ['object'],
-    '$Conf': ['object'], '$Location': ['object'], '$Type': ['object'],
+    '$Conf': ['object'], '$Location': ['object'], '$Type': ['object'], '$ExcClass': ['object'],
 }
 
 
